@@ -38,7 +38,9 @@ func (cer *CER) Parse(m *diam.Message, localRole Role) (failedAVP *diam.AVP, err
 		return nil, err
 	}
 	if cer.InbandSecurityID != nil {
-		if v := cer.InbandSecurityID.Data.(datatype.Unsigned32); v != 0 {
+		// An AVP with this code under a vendor id, which the dictionary
+		// does not define, is decoded as datatype.Unknown.
+		if v, ok := cer.InbandSecurityID.Data.(datatype.Unsigned32); !ok || v != 0 {
 			return nil, ErrNoCommonSecurity
 		}
 	}
